@@ -252,7 +252,45 @@ class ConstructTimepoints(Spec):
         return res
 
 
-UNITS = [AddObservations(), AddFirstObservation(), ConstructValues(), ConstructTimepoints()]
+class EventCodeExport(Spec):
+    """IndividualData._event_to_frame, the statement that turns the one-hot event flags back into the table's event code (the
+    if / elif / else on `self.event_bool.sum()`; dropped: the event-time check before it and the pandas frame built after it):
+    0 when no event is observed, k when exactly the k-th competing event is, LeaspyInputError when more than one is -- for EVERY flag
+    vector of 1 to 4 event types (concrete vectors: the statement is loop-free, the domain is enumerated completely), so that
+    re-ingesting the exported code gives the same flags back."""
+    target = "leaspy.io.data.individual_data:IndividualData._event_to_frame"
+    fragment = (lambda t: t.startswith("if self.event_bool.sum() == 1") or t.startswith("event_bool ="),
+                lambda t: t.startswith("if self.event_bool.sum() == 1") or t.startswith("if event_bool > 1") or t.startswith("if self.event_bool.sum() > 1"))
+
+    def configs(self):
+        import itertools as _it
+        return [dict(flags="".join("1" if b else "0" for b in v)) for n in (1, 2, 3, 4) for v in _it.product((False, True), repeat=n)]
+
+    def setup(self, cx, cfg):
+        from leaspy.io.data.individual_data import IndividualData
+        import leaspy.io.data.individual_data as mod
+        flags = np.array([c == "1" for c in cfg["flags"]], dtype=bool)
+        s = SymObj(IndividualData, dict(idx="subject", event_bool=flags, event_time=np.array([70.0] * len(flags))))
+        env = {"self": s, "event_time_name": "EVENT_TIME", "event_bool_name": "EVENT_BOOL"}
+        for k_, v_ in vars(mod).items():
+            env.setdefault(k_, v_)
+        return dict(env=env, flags=flags)
+
+    def raises(self, cx, st):
+        from leaspy.exceptions import LeaspyInputError
+        return [(LeaspyInputError, z3.BoolVal(int(st["flags"].sum()) > 1))]
+
+    def post(self, cx, st, out):
+        want = 0 if not st["flags"].any() else int(np.where(st["flags"])[0][0]) + 1
+        got = out.value.get("event_bool")
+        try:
+            same = int(got) == want and not isinstance(got, bool)
+        except Exception:
+            same = False
+        return [(f"exported code = {want} (0: censored, k: the k-th event observed)", z3.BoolVal(bool(same)))]
+
+
+UNITS = [AddObservations(), AddFirstObservation(), ConstructValues(), ConstructTimepoints(), EventCodeExport()]
 CALLEES = []
 ASSUMPTIONS = ["Dataset tensors in real arithmetic: an observation's NaN-ness is the uninterpreted predicate isnan(value), isnan(0) is false; "
                "torch.tensor(np.array(observations)) holds the observations entry by entry (float32 rounding not modelled)",
